@@ -5,16 +5,15 @@ import itertools
 
 from harness.core import Result
 
-LEAN_MODULES = ["ZeepProofs.C16"]
+LEAN_MODULES = ["ZeepProofs.C16", "ZeepProofs.C16Flow"]
 NS = "Zeep.Pipeline."
 THEOREMS = [NS + t for t in (
     "c16_egress_order", "c16_wire_is_final", "c16_threading", "c16_none_is_identity", "c16_ingress_order", "c16_history",
-    "runStages_trace", "runStages_result",
-)]
+    "runStages_trace", "runStages_result", "egressStages_by_class", "c16_create_flow_matches_source", "c16_send_flow_matches_source", "c16_reply_flow_matches_source")]
 LEVEL = "proof"
 MANIFEST = dict(
     engine="E: lean/ZeepModel/Soap/Pipeline.lean",
-    technique="Lean 4 theorems for arbitrary plugin / WS-Security functions and list lengths (trace order, threading, final wire message, None = identity, bounded history deque by induction over call sequences) + differential event-log tie on real clients",
+    technique="Lean 4 theorems for arbitrary plugin / WS-Security functions and list lengths (trace order, threading, final wire message, None = identity, bounded history deque by induction over call sequences); obligations, re-checked by `decide` against the flow regenerated from soap.py on every run (translator soap_flow.py), that _create / send / process_reply run the model's stage classes in the model's order; + differential event-log tie on real clients",
     text="For every message type, every plugin list and every WS-Security configuration the model's trace is proved to be: implicit addressing, plugins in list order, wsse entries in order, extra headers, with each stage seeing its predecessor's output and the transport seeing the last output; on the way in every verifier sees the document as received, then plugins in order, their final output decoded. c16_history proves the buffer equals the last N exchanges for any call sequence incl. failing calls. Tied by running plugin lists (tracing, rewriting, None-returning, header-replacing, history at every position, maxlen 1..3), wsse none/single/list, extra headers and call sequences with failures on a real Client and comparing event logs, wire messages, decoded values and history buffers with the model.",
     note="Trusted: plugins of the tie copy messages instead of mutating them in place (aliasing between a stored history entry and later in-place mutation is plugin-author behaviour, outside the model).",
     design_ref="DESIGN.md section 6, C16",
